@@ -69,6 +69,11 @@ CHECKS = {
             "The near-optimality clause is NOT a theorem (false: kernel-checked IEEE counter-example; recorded findings). Real util.dykstra replayed bit-exactly with recorded projector outputs.",
             "Trusted: Lean kernel; standard axioms; projectors as oracles / a closed language (box, ball, half-space); stopping sum compared with 1e-12 relative tolerance (np.float64**2 is not bit-reproducible).",
             "6/C15"),
+    "C18": ("Lean 4 theorems (real-arithmetic invariants of the radius-update kernels, induction over all operation sequences) + AST-hash tie of every radius assignment + bit-exact Float correspondence with observed updates",
+            "Proof: from delta=rho=rhobeg>=rhoend>0, after any sequence of reduce_rho / ratio-class updates / geometry reductions / restarts (any ratios, norms, tau, distances): delta>=rho, rhoend<=rho<=rhobeg, rho>0; rho never increases within a run; "
+            "delta<=1e10 for tau=1; reduce_rho strictly decreases rho for alpha1<1. The source of every assignment to delta/rho/rhoend is re-hashed from /repo each run; the Float kernels reproduce observed updates bit for bit.",
+            "Trusted: Lean kernel; standard axioms; exact arithmetic (rounding not covered); hypothesis 1/250<=alpha1<=1; table-shape clauses are searched on real diagnostic tables, not proved.",
+            "6/C18"),
 }
 
 PENDING_REASON = "check not built yet in this round (planned: see DESIGN.md section 6); not claimed until its theorem, correspondence and search exist"
